@@ -141,6 +141,7 @@ package joinserver
 //@   let rxd = ctx.joinReqPayload.RxDelay
 //@   let nk = ctx.deviceKeys.NwkKey
 //@   ensures accept-len: err == nil && len(ctx.joinReqPayload.CFList) == 0 ==> len(ctx.joinAnsPayload.PHYPayload) == 17 && ctx.joinAnsPayload.PHYPayload[0] == 0x20
+//@   ensures accept-len-cflist: err == nil && len(ctx.joinReqPayload.CFList) != 0 ==> len(ctx.joinAnsPayload.PHYPayload) == 33 && ctx.joinAnsPayload.PHYPayload[0] == 0x20
 //@   ensures accept-fields: err == nil && len(ctx.joinReqPayload.CFList) == 0 ==> devdec(nk, ctx.joinAnsPayload.PHYPayload)[0] == uint8(jn) && devdec(nk, ctx.joinAnsPayload.PHYPayload)[1] == uint8(jn >> 8) && devdec(nk, ctx.joinAnsPayload.PHYPayload)[2] == uint8(jn >> 16) && devdec(nk, ctx.joinAnsPayload.PHYPayload)[3] == nid[2] && devdec(nk, ctx.joinAnsPayload.PHYPayload)[4] == nid[1] && devdec(nk, ctx.joinAnsPayload.PHYPayload)[5] == nid[0] && devdec(nk, ctx.joinAnsPayload.PHYPayload)[6] == da[3] && devdec(nk, ctx.joinAnsPayload.PHYPayload)[7] == da[2] && devdec(nk, ctx.joinAnsPayload.PHYPayload)[8] == da[1] && devdec(nk, ctx.joinAnsPayload.PHYPayload)[9] == da[0] && devdec(nk, ctx.joinAnsPayload.PHYPayload)[10] == dl.RX2DataRate | dl.RX1DROffset<<4 | b2u8(dl.OptNeg)<<7 && devdec(nk, ctx.joinAnsPayload.PHYPayload)[11] == uint8(rxd)
 //@   modifies ctx.joinAnsPayload
 //@   let on = ctx.joinReqPayload.DLSettings.OptNeg
@@ -164,6 +165,7 @@ package joinserver
 //@   let rxd = ctx.rejoinReqPayload.RxDelay
 //@   let ek = jskey(ctx.deviceKeys.NwkKey, 5, ctx.devEUI)
 //@   ensures accept-len: err == nil && len(ctx.rejoinReqPayload.CFList) == 0 ==> len(ctx.rejoinAnsPaylaod.PHYPayload) == 17 && ctx.rejoinAnsPaylaod.PHYPayload[0] == 0x20
+//@   ensures accept-len-cflist: err == nil && len(ctx.rejoinReqPayload.CFList) != 0 ==> len(ctx.rejoinAnsPaylaod.PHYPayload) == 33 && ctx.rejoinAnsPaylaod.PHYPayload[0] == 0x20
 //@   ensures accept-fields: err == nil && len(ctx.rejoinReqPayload.CFList) == 0 ==> devdec(ek, ctx.rejoinAnsPaylaod.PHYPayload)[0] == uint8(jn) && devdec(ek, ctx.rejoinAnsPaylaod.PHYPayload)[1] == uint8(jn >> 8) && devdec(ek, ctx.rejoinAnsPaylaod.PHYPayload)[2] == uint8(jn >> 16) && devdec(ek, ctx.rejoinAnsPaylaod.PHYPayload)[3] == nid[2] && devdec(ek, ctx.rejoinAnsPaylaod.PHYPayload)[4] == nid[1] && devdec(ek, ctx.rejoinAnsPaylaod.PHYPayload)[5] == nid[0] && devdec(ek, ctx.rejoinAnsPaylaod.PHYPayload)[6] == da[3] && devdec(ek, ctx.rejoinAnsPaylaod.PHYPayload)[7] == da[2] && devdec(ek, ctx.rejoinAnsPaylaod.PHYPayload)[8] == da[1] && devdec(ek, ctx.rejoinAnsPaylaod.PHYPayload)[9] == da[0] && devdec(ek, ctx.rejoinAnsPaylaod.PHYPayload)[10] == dl.RX2DataRate | dl.RX1DROffset<<4 | b2u8(dl.OptNeg)<<7 && devdec(ek, ctx.rejoinAnsPaylaod.PHYPayload)[11] == uint8(rxd)
 //@   modifies ctx.rejoinAnsPaylaod
 //@   ensures success: err == nil ==> ctx.rejoinAnsPaylaod.BasePayloadResult.Result.ResultCode == "Success"
